@@ -11,7 +11,8 @@ import (
 type c18Txn struct {
 	Rcpts    []string // RCPT commands of the transaction
 	Accepted []string
-	Codes    []int // expected status per accepted recipient
+	Codes    []int    // expected status per accepted recipient
+	Details  []string // expected callback argument per accepted recipient, with enhanced code and message
 	UseCb    bool
 	DataOp   int
 	NoopOp   int
@@ -70,6 +71,14 @@ func genC18(t *Tape, tier string) *Scenario {
 				tx.AllOK = false
 			}
 			tx.Codes = append(tx.Codes, code)
+			switch code {
+			case 550:
+				tx.Details = append(tx.Details, fmt.Sprintf("%s=550 5.1.1 %q", r, "<"+r+"> no mailbox "+r))
+			case 452:
+				tx.Details = append(tx.Details, fmt.Sprintf("%s=452 4.2.2 %q", r, "<"+r+"> over quota "+r))
+			default:
+				tx.Details = append(tx.Details, r+"=ok")
+			}
 		}
 		if len(dp.Statuses) > 0 && t.Chance(1, 10) {
 			// a slow delivery: one recipient's status comes more than CommandTimeout
@@ -219,6 +228,8 @@ func checkC18(sc *Scenario, h *History) []Violation {
 			}
 			if fmt.Sprint(d.Statuses) != fmt.Sprint(want) {
 				v("C18.statuses", "transaction %d: the callback reported %v, expected %v", ti, d.Statuses, want)
+			} else if fmt.Sprint(d.StatusDetail) != fmt.Sprint(tx.Details) {
+				v("C18.status-detail", "transaction %d: the callback was handed %v, the server said %v", ti, d.StatusDetail, tx.Details)
 			}
 			if d.Err != "" && (d.End-d.Begin <= int64(time.Minute) || tx.Slow) {
 				v("C18.close-error", "transaction %d: Close with a callback returned %q", ti, d.Err)
